@@ -582,6 +582,8 @@ def run(fx, chk, tier):
     # ---------------- S6: bytes taken from the stream reach the decoded value without content-changing edits
     s6(fx, chk)
     s8(fx, chk, ms)
+    chk.rule("S9", "descriptor encoders: the length announced in a descriptor header equals the payload bytes written on that path and the type's static desc_size()")
+    desc_sizes(fx, chk, "S9")
     # ---------------- S7: bit-packed words (instances owned by C05)
     from packs_common import compose
     chk.rule("S7", "bit-packed words are unpacked by the decoder exactly as the encoder packs them: both sides route every field to the bit positions of the layout (C05 R3 instances)")
@@ -700,6 +702,126 @@ def _name_of(names, lid):
 def _scope_overlaps(order, pos, prev, cur):
     """conservative: a shadowing `let` counts only when it comes later in the same function body (positions are pre-order)"""
     return cur[1] > prev[1]
+
+
+def desc_sizes(fx, chk, rule, floor=4):
+    """MPEG-4 descriptors: each encoder writes [tag][length][payload]; the length it passes to the header helper must be
+    the number of payload bytes it then writes on that path, and it must be the type's static desc_size(), because the
+    enclosing descriptors and the esds box size are computed from desc_size() alone."""
+    import tables
+    cg = callgraph(fx)
+    iof = io_fallible_set(fx, cg)
+    hdrw = [f for f in fx.fns.values() if f["name"] == "write_desc" and f["kind"] == "Fn"]
+    sol = [f for f in fx.fns.values() if f["name"] == "size_of_length" and f["kind"] == "Fn"]
+    if not (chk.anchor(rule, "descriptor header writer", hdrw) and chk.anchor(rule, "size_of_length", sol)):
+        return
+    tt = tables.threshold_table(fx, sol[0])
+
+    def sol_val(v):
+        if tt is None or v is None:
+            return None
+        for ub, n in tt:
+            if ub is None or v <= ub:
+                return n
+        return None
+
+    def ev(e, env, depth=0):
+        if e is None or depth > 12:
+            return None
+        k = e.get("k")
+        if k == "lit":
+            return e.get("val") if isinstance(e.get("val"), int) else None
+        if k in ("cast", "paren", "addrof"):
+            return ev(e.get("e"), env, depth + 1)
+        if k == "path":
+            if e.get("res") == "local":
+                return env.get(e["name"])
+            return e.get("val") if isinstance(e.get("val"), int) else None
+        if k == "bin":
+            a, b = ev(e["l"], env, depth + 1), ev(e["r"], env, depth + 1)
+            if a is None or b is None:
+                return None
+            return {"Add": a + b, "Sub": a - b, "Mul": a * b}.get(e.get("op"))
+        if k in ("call", "mcall"):
+            fid = e.get("resolved") or e.get("fn")
+            f = fx.fns.get(fid)
+            if f is None:
+                return None
+            if f["id"] == sol[0]["id"]:
+                return sol_val(ev(e["args"][0], env, depth + 1)) if e.get("args") else None
+            if f["name"] == "desc_size" and not e.get("args"):
+                root = hirq.body_root(f)
+                tail = root.get("expr") if root and root.get("k") == "block" and not root.get("stmts") else None
+                return ev(tail, {}, depth + 1) if tail is not None else None
+        return None
+
+    def paths(items, env, acc):
+        if acc is None:
+            return [None]
+        if not items:
+            return [dict(acc, ret=None)]
+        x, rest = items[0], items[1:]
+        n = x["n"]
+        if n == "let":
+            env = dict(env)
+            if x.get("pat", {}).get("k") == "bind":
+                env[x["pat"]["name"]] = ev(x.get("init"), env)
+            return paths(rest, env, acc)
+        if n == "atom":
+            if x.get("w") is None:
+                return [None]
+            return paths(rest, env, dict(acc, bytes=acc["bytes"] + x["w"]))
+        if n == "inline":
+            f = fx.fns.get(x["fn"])
+            if f is not None and f["id"] == hdrw[0]["id"]:
+                return paths(rest, env, dict(acc, hdr=ev(x["args"][2], env) if len(x.get("args", [])) > 2 else None, nhdr=acc["nhdr"] + 1))
+            tr = short(((f or {}).get("impl") or {}).get("trait") or "")
+            if f is not None and tr.startswith("WriteDesc<"):
+                ds = [g for g in fx.fns.values() if g["name"] == "desc_size" and short((g.get("impl") or {}).get("self_ty") or "") == short((f.get("impl") or {}).get("self_ty") or "")]
+                v = ev({"k": "call", "resolved": ds[0]["id"], "args": []}, {}) if ds else None
+                if v is None or sol_val(v) is None:
+                    return [None]
+                return paths(rest, env, dict(acc, bytes=acc["bytes"] + 1 + sol_val(v) + v))
+            return [None]
+        if n == "alt":
+            out = []
+            for br in ("then", "else"):
+                sub = (x.get(br) or {}).get("items", []) if x.get(br) else []
+                out += paths(list(sub) + list(rest), env, acc)
+            return out
+        if n == "ret":
+            if not x.get("ok"):
+                return []
+            v = x["val"]["args"][0] if x.get("val") and x["val"].get("args") else None
+            return [dict(acc, ret=ev(v, env))]
+        return [None]
+    nd = 0
+    for f in sorted((f for f in fx.fns.values() if f["name"] == "write_desc" and short((f.get("impl") or {}).get("trait") or "").startswith("WriteDesc<")), key=lambda f: f["id"]):
+        T = short(f["impl"].get("self_ty") or "")
+        L = LY.extract(fx, iof, f, opaque={})
+        ds = [g for g in fx.fns.values() if g["name"] == "desc_size" and short((g.get("impl") or {}).get("self_ty") or "") == T]
+        static = ev({"k": "call", "resolved": ds[0]["id"], "args": []}, {}) if ds else None
+        ps = paths(L["items"], {}, {"hdr": None, "bytes": 0, "nhdr": 0}) if L else [None]
+        if static is None or any(p is None for p in ps) or not ps:
+            chk.analysed.setdefault("descriptors_not_compared", []).append(T)
+            chk.ok(rule, "desc|" + T, "not compared: the encoder or desc_size() is outside the descriptor vocabulary (constants, sums, size_of_length, child descriptors, if/else)", site_of(f))
+            continue
+        nd += 1
+        bad = None
+        for p_ in ps:
+            if p_["nhdr"] != 1 or p_["hdr"] is None:
+                bad = "a path writes %d descriptor headers" % p_["nhdr"]
+            elif p_["hdr"] != p_["bytes"]:
+                bad = "a path announces %d payload bytes and writes %d" % (p_["hdr"], p_["bytes"])
+            elif p_["hdr"] != static:
+                bad = "a path writes a %d-byte payload but desc_size() is %d: the enclosing descriptors and the esds box size, which are computed from desc_size(), no longer match the bytes written" % (p_["hdr"], static)
+            elif p_["ret"] is not None and p_["ret"] != p_["hdr"]:
+                bad = "a path returns %d for a %d-byte payload" % (p_["ret"], p_["hdr"])
+            if bad:
+                break
+        chk.require(bad is None, rule, "desc|" + T, "announced length = payload bytes written = desc_size() = %s on %d path(s)" % (static, len(ps)),
+                    "%s::write_desc: %s" % (T, bad), site_of(f))
+    chk.floor(rule, "descriptor encoders compared", nd, floor)
 
 
 def c04_flat_roles(toks):
